@@ -470,21 +470,24 @@ def typeRefDiags (path : String) (env : Env) (s : Schema) : TypeRef → List Dia
 def subtypeResolveArgs (n dn : String) (dl : Nat) : List Arg :=
   if ResolveGen.subtypeResolvePassesName then [sArg n, sArg dn, .int dl] else [sArg n, .int dl]
 
+/-- `ENTITYresolve_supertypes` + `ENTITYresolve_subtypes` for one entity.  A name imported through an interface clause is
+    found whatever its kind (`SCOPE_find` filters own declarations only): a non-entity gives SUPERTYPE_RESOLVE /
+    SUBTYPE_RESOLVE instead of "unknown" -/
+def superSubDiags (path : String) (env : Env) (s : Schema) (e : Entity) : List Diag :=
+  (e.supers.filterMap fun x =>
+    if isEnt env s x.1 then none
+    else match env.foreignDecl x.1 with
+      | some q => some (mk path LibErrors.SUPERTYPE_RESOLVE x.2 [sArg x.1, .int q.2])
+      | none => some (mk path LibErrors.UNKNOWN_SUPERTYPE x.2 [sArg x.1, sArg e.name])) ++
+  (e.subs.filterMap fun n =>
+    if isEnt env s n then none
+    else match env.foreignDecl n with
+      | some q => some (mk path LibErrors.SUBTYPE_RESOLVE e.line (subtypeResolveArgs n q.1 q.2))
+      | none => some (mk path LibErrors.UNKNOWN_SUBTYPE e.line [sArg n, sArg e.name]))
+
 def pass3 (path : String) (env : Env) (s : Schema) : List Diag :=
   s.decls.flatMap fun
-    | .entity e =>
-      -- a name imported through an interface clause is found whatever its kind (`SCOPE_find` filters own declarations
-      -- only): a non-entity gives SUPERTYPE_RESOLVE / SUBTYPE_RESOLVE instead of "unknown"
-      (e.supers.filterMap fun (n, l) =>
-        if isEnt env s n then none
-        else match env.foreignDecl n with
-          | some (_, dl) => some (mk path LibErrors.SUPERTYPE_RESOLVE l [sArg n, .int dl])
-          | none => some (mk path LibErrors.UNKNOWN_SUPERTYPE l [sArg n, sArg e.name])) ++
-      (e.subs.filterMap fun n =>
-        if isEnt env s n then none
-        else match env.foreignDecl n with
-          | some (dn, dl) => some (mk path LibErrors.SUBTYPE_RESOLVE e.line (subtypeResolveArgs n dn dl))
-          | none => some (mk path LibErrors.UNKNOWN_SUBTYPE e.line [sArg n, sArg e.name]))
+    | .entity e => superSubDiags path env s e
     | .type t =>
       (match t.body with
        | .ref r =>
@@ -545,6 +548,15 @@ def isAncestor (s : Schema) (name : String) : Nat → String → Bool
     | none => false
     | some e => (supersOf s e).any fun sup => sup = name || isAncestor s name fuel sup
 
+/-- `ENTITYcheck_missing_supertypes`: every entity on `e`'s (run-time) subtype list must name `e` among its supertypes; the
+    `found` flag is per subtype -/
+def missingSuperDiags (path : String) (s : Schema) (e : Entity) : List Diag :=
+  (subtypesOf s e).filterMap fun sub =>
+    match findEntity s sub with
+    | some se => if e.name ∈ supersOf s se then none
+                 else some (mk path LibErrors.MISSING_SUPERTYPE se.line [sArg e.name, sArg se.name])
+    | none => none
+
 /-- `ENTITYresolve_uniques` for one attribute reference of a UNIQUE rule -/
 def uniqueDiags (path : String) (s : Schema) (e : Entity) (fuel : Nat) (u : UniqueItem) : List Diag :=
   let unqualified :=
@@ -571,6 +583,19 @@ def uniqueDiags (path : String) (s : Schema) (e : Entity) (fuel : Nat) (u : Uniq
           [mk path LibErrors.UNKNOWN_ATTR_IN_ENTITY u.line [sArg u.attr, sArg q],
            mk path LibErrors.UNKNOWN_ATTR_IN_ENTITY u.line [sArg u.attr, sArg q]] ++ unqualified ++ needless
 
+/-- recursion budget of the sub/super cycle search: one level per newly marked entity, cut at the depth guard if there is one -/
+def subsuperFuel (s : Schema) : Nat :=
+  match ResolveGen.subsuperDepthLimit with
+  | some k => min (s.decls.length + 1) k
+  | none => s.decls.length + 1
+
+/-- the refusal of `RESOLVEnested_too_deeply` (SYNTAX, severity EXIT) when the search would go deeper than the guard allows -/
+def nestingDiags (path : String) (e : Entity) : List Diag :=
+  match ResolveGen.subsuperDepthLimit with
+  | some k => [mk path LibErrors.SYNTAX e.line
+      [.str ("More than " ++ toString k ++ " levels of nesting").toList, .str "one".toList, .str "chain of subtypes".toList]]
+  | none => []
+
 def pass4 (path : String) (env : Env) (s : Schema) : List Diag :=
   let fuel := s.decls.length + 1
   s.decls.flatMap fun
@@ -581,19 +606,15 @@ def pass4 (path : String) (env : Env) (s : Schema) : List Diag :=
            (dfs ResolveGen.visitedReturnsSelect t.name (selectGraph s) fuel (selectGraph s t.name) [])
        | _ => [])
     | .entity e =>
-      -- ENTITYcheck_missing_supertypes
-      ((subtypesOf s e).filterMap fun sub =>
-        match findEntity s sub with
-        | some se => if e.name ∈ supersOf s se then none
-                     else some (mk path LibErrors.MISSING_SUPERTYPE se.line [sArg e.name, sArg se.name])
-        | none => none) ++
+      missingSuperDiags path s e ++
       -- ENTITYresolve_types
       (e.attrs.flatMap fun a => typeRefDiags path env s a.ty ++
         (if (typeRefDiags path env s a.ty).isEmpty then inverseDiags path s a (fun en an => namedAttr s an fuel en = some true) else [])) ++
       (e.uniques.flatMap (uniqueDiags path s e fuel)) ++
-      -- ENTITYcheck_subsuper_cyclicity
-      cycleDiags path LibErrors.SUBSUPER_LOOP LibErrors.SUBSUPER_CONTINUATION (lineOfEntity s) e.name
-        (dfs ResolveGen.visitedReturnsSubsuper e.name (subGraph s) fuel (subGraph s e.name) [])
+      -- ENTITYcheck_subsuper_cyclicity (behind a recursion-depth guard when the code has one)
+      (match dfs ResolveGen.visitedReturnsSubsuper e.name (subGraph s) (subsuperFuel s) (subGraph s e.name) [] with
+       | none => nestingDiags path e
+       | some r => cycleDiags path LibErrors.SUBSUPER_LOOP LibErrors.SUBSUPER_CONTINUATION (lineOfEntity s) e.name (some r))
     | _ => []
 
 /-- a function call inside a domain rule: arity warning, or undefined function (+ the MISSING_SELF it entails: the
